@@ -13,6 +13,12 @@ Theorems: coq/C09/Properties_C09.v.
   array parameters up to 4) are refused cell by cell, chains from a const object for ANY number of links.
   The policy of the current code (`mech`) makes 29 of the 46 tests: `_refuted` theorems for the 17 missing ones,
   confirmed here on the real binary and recorded as known findings.
+  Part 3 (coq/C09/Paths.v, Properties_C09_paths.v): ACCESS PATHS into nested objects. A variable is a tree (scalars, arrays,
+  structs, arrays of structs, any depth) with const on the variable and on struct members; a store names its target by an
+  l-value x / e.m / e[i] in any mix. The walk that finds the variable to test reaches the root of every path (and a walk
+  that strips members and then at most one subscript is characterised: it misses exactly the paths with a subscript after
+  the first step); under the policy with all 79 tests (one per path shape x store form x reason) every protected cell keeps
+  its value for every script; each test is necessary; the policy of the code lacks 23 (refuted, recorded as findings).
 Tie (every run, against /repo's current sources built by common.build_impl):
   * the full matrix as hand-written Cb templates (gen_c09.cell), const version and control twin,
     against the extracted verdicts of spec and mech;
@@ -23,13 +29,18 @@ Tie (every run, against /repo's current sources built by common.build_impl):
     reference-returning functions, double pointers ...), const version and control twin;
   * random scripts of the machine incl. callees (a stream that stays off the known holes: main = spec = mech; a free
     stream: main = mech, or = spec when a hole was repaired);
-  * random CbCore programs around const objects against the extracted Ref (langrun.differential).
+  * random CbCore programs around const objects against the extracted Ref (langrun.differential);
+  * access paths (harness/c09_paths.py): one witness + control twin per path check site, the whole universe of
+    coq/C09/PathModel.v (8 object graphs x const on nothing / the variable / one member x every scalar cell x =, op=, ++ and
+    every inner node x variable / literal source; the const-variable cases in every way of creating the variable, with every
+    scalar type and every right-hand-side form), random multi-variable path scripts with full transcripts.
 """
 import collections
 import json
 import os
 import time
 
+import c09_paths
 import common
 import gen_c09
 import langrun
@@ -42,7 +53,9 @@ META = {
     "technique": "Coq: generic state-relation induction over the shared reference interpreter (const entries immutable for every program/fuel) + "
                  "invariant proof on a pointer/reference/array-parameter machine with one const test per executor and handles derived from handles "
                  "across call boundaries (sufficiency incl. a ghost 'no store through a const view', necessity of each test, exhaustive 13x12 matrix, "
-                 "exhaustive derivation chains up to depth 3 and any-depth induction) + extracted-model differential runs against main",
+                 "exhaustive derivation chains up to depth 3 and any-depth induction) + a tree-valued access-path machine (nested structs / arrays, const on "
+                 "variables and members, l-values as expressions: root-walk totality, immutability of every protected cell for every script by induction, "
+                 "necessity of each of 79 tests) + extracted-model differential runs against main",
     "text": "Machine-checked for all programs, states and fuels of the reference interpreter coq/Lang: a store to a const entry (=, op=, ++/--, element "
             "store) fails with the const error and leaves the state unchanged, and every const global, local and static is literally the same entry "
             "after any expression or statement. Pointers, references and array parameters are a separate Gallina machine (objects with const flags, "
@@ -56,12 +69,26 @@ META = {
             "of the 46 tests (proved for the model, confirmed on main); the 17 missing tests are refuted with witnesses. On every run the matrix "
             "(hand-written Cb templates with a control twin per cell), one witness per check site, every derivation chain, template cells outside "
             "the machine, random machine scripts with callees and random CbCore programs are executed on /repo's main and compared with the "
-            "extracted models; the missing tests are reported as known findings.",
+            "extracted models; the missing tests are reported as known findings. Access paths into nested objects are a third machine (variables are "
+            "trees of scalars, arrays, structs and struct arrays of any depth, const on the variable and on members, targets named by l-values "
+            "x / e.m / e[i] in any mix): the walk that finds the variable whose const is tested reaches the root of every path (a walk that strips "
+            "members and then at most one subscript misses exactly the paths with a subscript after the first step); with all 79 tests (path shape x "
+            "=, op=, ++ x reason: const variable, const last member, const member further up; whole-sub-object stores x source x reason) every "
+            "scalar store and every whole-sub-object store on something protected is refused, every protected cell keeps its value and its "
+            "protection through every script, each test is necessary; the code's policy makes 56 of them, the 23 missing are refuted with "
+            "witnesses. On every run the witnesses, the complete universe of 8 object graphs x const placements x cells / nodes x store forms "
+            "(const-variable cases in every way of creating the variable, every scalar type, every right-hand-side form) and random path scripts "
+            "are compared with main.",
     "note": "Trusted: Coq kernel incl. vm_compute (finite sweeps: 156 cells, 46 sites, ~6000 chains), no axioms (Print Assumptions closed); extraction "
             "(ExtrOcamlBasic, ExtrOcamlString) + OCaml drivers (lang_driver, c09_driver); the machine ConstPtr.v and its `mech` policy are "
             "hand-written from the C++ (site list in ConstPtr.v); the tie is differential testing. Not modelled (template cells only): strings, "
-            "floats, 2-D arrays, nested / array / string members, methods, reference-returning functions, double pointers; the history on which "
-            "`r.m = v` through a reference to a const struct depends is modelled for two histories only (nothing read / read through this reference).",
+            "floats, 2-D arrays, methods, reference-returning functions, double pointers; the history on which "
+            "`r.m = v` through a reference to a const struct depends is modelled for two histories only (nothing read / read through this reference). "
+            "Path machine: coq/C09/Paths.v `pmech`, `exec_set`, `exec_sub` (what the interpreter can execute at all on non-const objects) are "
+            "hand-written from measurements and tied by the witnesses and control twins on every run; the implementation's const tests on members of "
+            "struct-array elements and below const struct-typed members depend on read / is_assigned history the machine does not have (those sites "
+            "are `missing`, a refusal through them is tolerated); pointers / references / methods combined with nested paths are not executable by "
+            "the interpreter and outside the comparison.",
 }
 
 CH_CHAINS = 4000
@@ -474,6 +501,15 @@ def run(rep):
     samples.append({"extra_cell": xcells[1][0], "program": xcells[1][1], "spec": "rejected"})
 
     lap("extras")
+    # ---------------------------------------------------------------- access paths into nested objects (coq/C09/Paths.v)
+    pcov, pev, pnt, psamples, pdist = c09_paths.run(rep, impl, seed, tier, findings)
+    evaluations += pev
+    nontrivial |= pnt
+    samples += psamples
+    for k, v in pcov["implementation_error_messages"].items():
+        ERRS[k] += v
+
+    lap("paths")
     # ---------------------------------------------------------------- random scripts
     n_strict = 1500 if tier == "quick" else 20000
     n_free = 1200 if tier == "quick" else 15000
@@ -579,8 +615,13 @@ def run(rep):
                                "scripts_strict": len(strict), "scripts_free": len(free), "ref_programs": len(progs),
                                "finding_replays": len(findings)},
         "samples": samples, "phase_wall_s": phase,
+        "paths": {k: v for k, v in pcov.items() if k != "implementation_error_messages"},
     })
+    rep.coverage["input_distribution"].update(pdist)
     rep.assumptions += [
+        "access paths: only what the interpreter can execute on NON-const objects is compared verdict by verdict (coq/C09/Paths.v exec_set / exec_sub: x.m with =, op=, ++; x.a[i] with =; member chains x.a.b.c, x[i].a.b, x.a[i].b.c with =, op=; whole stores x = .., x.m = t, x.a[i] = t / {..}, x[i] = t / {..}); outside it (a subscript after two or more steps, two subscripts, ++ / op= on nested cells, array-typed members as a whole, nested paths behind pointers / references / self) the check demands only that no protected cell changes",
+        "access paths: a script ends with the first store on which the property and the model of the code part (such a store sets is_assigned and changes later verdicts); scripts reaching Last.RootIdx are rendered without a read before the store (finding C09-const-member-in-element); a refusal through a test the model lists as missing is counted, not reported (only the site's own witness decides `repaired`)",
+        "access paths, ways of creating the variable: const MEMBERS only with ways that initialise every cell (literal, global, static); whole-sub-object stores not on const declared without initialiser (first whole assignment = initialisation) nor on copy-initialised / parameter consts (finding C09-copy-init-const-element-literal); const scalar arrays not copy-initialised (finding C09-const-array-copy-init) nor of floating type (finding C09-const-float-array); by-value struct parameters only for const variables (nested stores into non-const by-value parameters are lost); values of whole-sub-object stores from a struct VARIABLE and of string / floating array members are not compared (copies are incomplete - not a const matter)",
         "the strict stream never attacks through a check site the implementation is known to lack (gen_c09.random_script(avoid=...)); each such site has a recorded finding, a witness and matrix cells that are run separately",
         "Ref programs: operands of the mutation attempt are literals (the implementation tests the target before evaluating the right-hand side, Ref after); programs on which Ref reports undef are discarded",
         "machine scripts use int slots only; scalar types tiny..bool, globals and parameters are covered by the matrix templates",
@@ -596,6 +637,8 @@ def replay(path):
     data = json.load(open(path))
     c = data["case"]
     impl = common.build_impl("plain")
+    if "pscript" in c:
+        return c09_paths.replay(c, impl)
     if "script" in c:
         row = run_scripts(impl, [c["script"]], [tuple(c.get("globals", ()))])[0]
         print(row[1])
